@@ -100,7 +100,7 @@ def run_sort_case(job):
         gaf = os.path.join(d, "in.gaf" + ([".gz", ".bgz", ""][zlib.crc32(("sfx" + str(cid)).encode()) % 3] if in_storage == "bgzf" else ""))
         write_text(gaf, join_lines(lines, cid), in_storage, block=block)
         out = os.path.join(d, "out.gaf" + (".gz" if out_bgzip else ""))
-        to_stdout = mode != "C10" and not out_bgzip and not outind and pad == 0 and len(recs) % 4 == 3
+        to_stdout = mode != "C10" and not out_bgzip and not outind and pad == 0 and (len(recs) + zlib.crc32(str(cid).encode())) % 3 == 1
         argv = ["sort", gaf, gfa] + ([] if to_stdout else ["--outgaf", out])
         gsi_path = out + ".gsi"
         if out_bgzip:
@@ -192,6 +192,11 @@ def run_mode(ctx, mode):
     for si, (pool, tag) in enumerate(((allref, "allref"), (noref, "noref"))):
         for bg in (False, True):
             jobs.append((f"s{tag}{int(bg)}", [rnd.choice(pool) for _ in range(6)], mode, "plain", bg, False, 0, 150))
+    # an empty file (no records: nothing to sort, an empty index), and a file with more records than 2^16 (thorough: 2^17)
+    jobs.append(("empty0", [], mode, "plain", False, False, 0, 150))
+    jobs.append(("empty1", [], mode, "bgzf", True, False, 0, 150))
+    nbig = 70000 if not ctx.thorough else 140000
+    jobs.append(("many", [POOL[(7 * k + k // 11) % len(POOL)] for k in range(nbig)], mode, "plain", False, False, 0, 150))
     # the same node ids under two different taggings, alternating within each worker process (state kept between
     # calls - caches keyed by node id, mutable defaults - would show up as values of the other graph)
     jobs = [j + (("a", "b", "c", "d")[k % 4],) for k, j in enumerate(jobs)]
@@ -199,7 +204,7 @@ def run_mode(ctx, mode):
     ctx.evaluations += len(cases)
     for c in cases:
         if len(c["file"]) >= 2:
-            ctx.nontrivial.add(json.dumps(c["file"], sort_keys=True) + str(c["cfg"]))
+            ctx.nontrivial.add((json.dumps(c["file"], sort_keys=True) if len(c["file"]) < 1000 else c["id"]) + str(c["cfg"]))
     verdicts = {}
     for variant, fname in (("a", "data/sort_graph.json"), ("b", "data/sort_graph_b.json"), ("c", "data/sort_graph_c.json"), ("d", "data/sort_graph_d.json")):
         verdicts.update(ctx.validate("Check_Sort", [c for c in cases if c["cfg"]["graph"] == variant], cfg="Check_Sort.cfg", env={"SORT_GRAPH": fname}))
